@@ -1,6 +1,9 @@
 #![cfg_attr(not(feature = "std"), no_std)]
 
-use air::{HashFunction, ProcessorAir, ProvingOptions, PublicInputs};
+use air::{
+    trace::{AUX_TRACE_RAND_ELEMENTS, AUX_TRACE_WIDTH, TRACE_WIDTH},
+    HashFunction, ProcessorAir, ProvingOptions, PublicInputs,
+};
 use core::fmt;
 use vm_core::{
     crypto::{
@@ -64,6 +67,20 @@ pub fn verify(
     // build public inputs and try to verify the proof
     let pub_inputs = PublicInputs::new(program_info, stack_inputs, stack_outputs);
     let (hash_fn, proof) = proof.into_parts();
+
+    // the layout of the execution trace is fixed by the VM; a proof which claims a different layout
+    // was not generated for this AIR (the AIR's constraints index into the layout's random elements)
+    let layout = proof.trace_layout();
+    if layout.main_trace_width() != TRACE_WIDTH
+        || layout.num_aux_segments() != 1
+        || layout.aux_trace_width() != AUX_TRACE_WIDTH
+        || layout.get_aux_segment_rand_elements(0) != AUX_TRACE_RAND_ELEMENTS
+    {
+        return Err(VerificationError::VerifierError(VerifierError::ProofDeserializationError(
+            "trace layout of the proof is not the layout of a Miden VM execution trace".into(),
+        )));
+    }
+
     match hash_fn {
         HashFunction::Blake3_192 => {
             let opts = AcceptableOptions::OptionSet(vec![ProvingOptions::REGULAR_96_BITS]);
